@@ -275,18 +275,18 @@ Definition apd_int64 (d : dec) : option Z :=
   | _ => None
   end.
 
-(* conversions.BigDecimalFloatToBigInt: value.Negative is never consulted *)
+(* conversions.BigDecimalFloatToBigInt: 10^Exponent * Coeff, negated if value.Negative *)
 Definition bigdec_to_bigint (max10 : Z) (d : dec) : option Z :=
   match d with
-  | Dec _ c e =>
+  | Dec neg c e =>
       if e <? 0 then None
       else if max10 <? e then None
-      else Some (c * 10 ^ e)
+      else Some (sgn neg (c * 10 ^ e))
   | _ => None
   end.
 
 (* conversions.UintToBigInt *)
-Definition uint_to_bigint (u : Z) : Z := if u <=? p63 - 1 then u else (u / 2) * 2.
+Definition uint_to_bigint (u : Z) : Z := if u <=? p63 - 1 then u (* big.NewInt(int64(u)) *) else u (* SetUint64 *).
 
 (* ---- concrete instance of the decimal -> binary parse on integers ---- *)
 
@@ -346,13 +346,13 @@ Inductive call :=
 
 (* builder_event_rcv.go.  OnNegativeInt: 0 becomes OnFloat(negZero) where the Go constant
    expression -zero is +0; 1..2^63-1 become OnInt(-value); above that the magnitude is put into
-   a big.Int with SetUint64 and the sign is lost. *)
+   a big.Int with SetUint64 and negated. *)
 Definition route (s : src) : call :=
   match s with
   | SPos n => CUint n
   | SNeg n => if n =? 0 then CFloat (FFin false 0 (-1074))
               else if n <=? p63 - 1 then CInt (- n)
-              else CBigInt n
+              else CBigInt (- n)
   | SInt z => CInt z
   | SBigInt z => CBigInt z
   | SFloat b => CFloat (f64_decode b)
@@ -386,13 +386,28 @@ Section Conv.
     let st := wrapu w u in if st =? u then Stored (StUint st) else Failed.
   Definition uint_from_opt (w : iw) (o : option Z) : result :=
     match o with Some u => uint_from_u64 w u | None => Failed end.
+  (* setUintFromDecimalFloat: a negative coefficient of a non-special value is refused *)
+  Definition uint_from_dec (w : iw) (d : dec) : result :=
+    match d with
+    | Dec neg c _ =>
+        if negb (dec_special d) && (sgn neg c <? 0) then Failed
+        else uint_from_opt w (dfloat_uint d)
+    | _ => uint_from_opt w (dfloat_uint d)
+    end.
   Definition uint_from_float (w : iw) (f : fdec) : result :=
     let u := go_uint64 f in
     if f_eq_int f (rne 53 u) then uint_from_u64 w u else Failed.
   (* conversions.BigDecimalFloatToUint *)
   Definition bigdec_to_bf (d : dec) : option bfl :=
     match d with Dec _ _ _ => ext_bdf d | _ => None end.   (* "NaN" / "Infinity" do not parse *)
+  Definition bigdec_negative_nonzero (d : dec) : bool :=   (* value.Negative && !value.IsZero() *)
+    match d with
+    | Dec neg c _ => neg && negb (c =? 0)
+    | DecInf neg => neg
+    | DecNan _ => false        (* a NaN fails below whatever its sign *)
+    end.
   Definition bigdec_to_uint (d : dec) : option Z :=
+    if bigdec_negative_nonzero d then None else
     match apd_int64 d with
     | Some i => Some (i mod p64)                             (* uint64(i), negative i wraps *)
     | None => match bigdec_to_bf d with
@@ -409,12 +424,17 @@ Section Conv.
     let st := store_float w false (rne_mag 53 u) in
     if go_uint64 st =? u then Stored (StFloat st) else Failed.
   (* BigIntToFloat: ParseFloat of the decimal text (correctly rounded; range error above the
-     largest float64), then the float must convert back to the same integer.  SetFloat is
-     not followed by any check. *)
+     largest float64), then the float must convert back to the same integer.  After SetFloat
+     the stored value is read back: big.NewFloat(dst.Float()).Int(nil) must be exact (an
+     infinity is not) and equal to the big integer. *)
   Definition float_from_bigint (w : fwid) (z : Z) : result :=
     let n := rne_mag 53 (Z.abs z) in
     if 2 ^ 1024 <=? n then Failed
-    else if n =? Z.abs z then Stored (StFloat (store_float w (z <? 0) n))
+    else if n =? Z.abs z then
+      match store_float w (z <? 0) n with
+      | FFin s n' _ => if sgn s n' =? z then Stored (StFloat (FFin s n' 0)) else Failed
+      | _ => Failed
+      end
     else Failed.
 
   (* ---- bigIntBuilder / pBigIntBuilder ---- *)
@@ -454,7 +474,7 @@ Section Conv.
     | TUint w, CBigInt z => if in_u64 z then uint_from_u64 w z else Failed
     | TUint w, CFloat f => uint_from_float w f
     | TUint w, CBigFloat b => uint_from_opt w (bigfloat_to_uint b)
-    | TUint w, CDec d => uint_from_opt w (dfloat_uint d)
+    | TUint w, CDec d => uint_from_dec w d
     | TUint w, CBigDec d => uint_from_opt w (bigdec_to_uint d)
 
     | TFloat w, CInt v => float_from_int w v
@@ -554,26 +574,6 @@ Definition src_is_integer_form (s : src) : bool :=
    big.Float destination; integer sources into a float destination. *)
 Definition in_scope (s : src) (t : dst) : bool :=
   match t with TFloat _ => src_is_integer_form s | _ => true end.
-
-(* The defect classes of the current code (each has a refuting witness in Props/C19.v):
-     - OnNegativeInt with a magnitude of 2^63 or more loses the sign;
-     - UintToBigInt clears the low bit of values of 2^63 or more;
-     - DFloat.Uint converts a negative coefficient with uint64(...);
-     - BigDecimalFloatToUint converts a negative int64 with uint64(...);
-     - BigDecimalFloatToBigInt ignores the sign;
-     - a big integer is narrowed into a float32 without a check.
-   (The seventh, the rounding decimal->binary parse on the way to an unsigned integer or a
-   big.Float, is expressed by a hypothesis on the abstract parse, not here.) *)
-Definition excluded (s : src) (t : dst) : bool :=
-  match s, t with
-  | SNeg n, _ => p63 <=? n
-  | SPos n, TBigInt => (p63 <=? n) && Z.odd n
-  | SDec (Dec true _ _), TUint _ => true
-  | SBigDec d, TUint _ => match apd_int64 d with Some i => i <? 0 | None => false end
-  | SBigDec (Dec true c _), TBigInt => negb (c =? 0)
-  | SBigInt z, TFloat F32 => negb (rne_mag 24 (Z.abs z) =? Z.abs z) || (2 ^ 128 <=? Z.abs z)
-  | _, _ => false
-  end.
 
 (* ------------------------------------------------------------------ *)
 (* Correspondence cases                                                *)
